@@ -345,13 +345,13 @@ func mutateString(t *rapid.T, s string) string {
 	switch rapid.IntRange(0, 6).Draw(t, "mut") {
 	case 0: // substitute with a char of the same alphabet family
 		i := rapid.IntRange(0, len(b)-1).Draw(t, "i")
-		b[i] = rapid.SampledFrom([]byte(b32Charset + b58Alphabet + ":")).Draw(t, "c")
+		b[i] = rapid.SampledFrom([]byte(b32Charset+b58Alphabet+":")).Draw(t, "c")
 	case 1: // delete
 		i := rapid.IntRange(0, len(b)-1).Draw(t, "i")
 		b = append(b[:i], b[i+1:]...)
 	case 2: // insert
 		i := rapid.IntRange(0, len(b)).Draw(t, "i")
-		c := rapid.SampledFrom([]byte(b32Charset + "1:")).Draw(t, "c")
+		c := rapid.SampledFrom([]byte(b32Charset+"1:")).Draw(t, "c")
 		b = append(b[:i], append([]byte{c}, b[i:]...)...)
 	case 3: // swap neighbours
 		if len(b) > 1 {
